@@ -560,7 +560,8 @@ func componentCase(c *Case) (*WF, string) {
 				w.Sources[nm] = "glob source " + nm + "\n"
 			}
 		}
-		pats := []string{"data/*.txt", "data/a*", "*/a1.txt", "data/?1.txt", "*.txt", "data/[ab]?.*", "nomatch/*"}
+		// (incl. wildcard-free patterns naming a file that may or may not exist)
+		pats := []string{"data/*.txt", "data/a*", "*/a1.txt", "data/?1.txt", "*.txt", "data/[ab]?.*", "nomatch/*", "data/a2.txt", "other/a1.txt", "data/zz.txt"}
 		g := Node{Name: "glob", Kind: KGlobber}
 		np := 1 + t.Choose(simrt.StGen, 2, 0)
 		seen := map[string]bool{}
@@ -654,7 +655,20 @@ func init() {
 			c.Sample = kind + ": " + sample(w)
 			c.Probe("component-" + kind)
 			ex := Eval(w)
-			inc := RunInc(w, c.Tape, nil, 0, IncOpts{KillAt: -1, Strategy: strategyOf(c.Tape), Trace: c.Trace})
+			var root0 *simrt.Inode
+			nextIno := 0
+			if kind == "concat" && c.Tape.Choose(simrt.StGen, 4, 0) == 1 {
+				// something is already at the Concatenator's output path (left by an
+				// earlier, possibly interrupted run): the output must still be exactly
+				// the inputs of THIS run
+				s0, _ := freshFS(c, w)
+				stale := []string{"", "stale line from an earlier run\n", "source src0 0\n\n"}[c.Tape.Choose(simrt.StGen, 3, 0)]
+				s0.FS.PutFile("/work/concat/all.txt", []byte(stale))
+				root0, nextIno = s0.FS.Root, s0.FS.NextIno
+				c.Fault("pre-existing")
+				c.Sample = "stale output present: " + c.Sample
+			}
+			inc := RunInc(w, c.Tape, root0, nextIno, IncOpts{KillAt: -1, Strategy: strategyOf(c.Tape), Trace: c.Trace})
 			c.Absorb(inc)
 			if v, ok := inconclusiveEnd(inc); ok {
 				return v
